@@ -10,6 +10,7 @@ pub mod c08;
 pub mod c09;
 pub mod c13;
 pub mod c14;
+pub mod c16;
 pub mod c19;
 pub mod common;
 pub mod c20;
@@ -31,6 +32,7 @@ pub fn run(prop: &str, tier: Tier, replay: Option<Value>) -> ! {
         "C09" => c09::run(tier, replay),
         "C13" => c13::run(tier, replay),
         "C14" => c14::run(tier, replay),
+        "C16" => c16::run(tier, replay),
         "C19" => c19::run(tier, replay),
         "C20" => c20::run(tier, replay),
         _ => crate::engine::report::machinery_fail(&format!("unknown property {prop}")),
